@@ -36,34 +36,44 @@ func mkTrace(id string) *types.Trace {
 }
 
 func init() {
-	groups = append(groups, group{
-		Name: "stress-relief",
-		Setup: func() any {
-			cfg := &config.MockConfig{StressRelief: config.StressReliefConfig{Mode: "monitor", ActivationLevel: 80, DeactivationLevel: 50, SamplingRate: 10, MinimumActivationDuration: config.Duration(time.Second)}}
-			m := metrics.NewMultiMetrics()
-			m.Store("INCOMING_CAP", 100)
-			s := &collect.StressRelief{RefineryMetrics: m, Config: cfg, Logger: &logger.NullLogger{}, Health: nopHealth{}, PubSub: stubPubSub{},
-				Peer: peer.NewMockPeers([]string{"me"}, "me"), Clock: clockwork.NewFakeClockAt(time.Unix(1700000000, 0)), Done: make(chan struct{})}
-			if err := s.Start(); err != nil {
-				panic(err)
-			}
-			s.UpdateFromConfig()
-			collect.VerifC35OnStressLevelUpdate(s, "peer1", 90)
-			s.Recalc()
-			return &stressEnv{s}
-		},
-		Done: func(e any) { close(e.(*stressEnv).s.Done) },
-		Acts: []activity{
-			{"monitor.Recalc", "stress-monitor", func(e any) { e.(*stressEnv).s.Recalc() }},
-			{"pubsub.onStressLevelUpdate", "*", func(e any) { collect.VerifC35OnStressLevelUpdate(e.(*stressEnv).s, "peer2", 70) }},
-			{"router.Stressed+GetSampleRate", "*", func(e any) {
-				s := e.(*stressEnv).s
-				s.Stressed()
-				s.GetSampleRate("abc")
-			}},
-			{"collector-monitor.UpdateFromConfig", "collector-monitor", func(e any) { e.(*stressEnv).s.UpdateFromConfig() }},
-		},
-	})
+	// two operating points, so that every field Recalc can write is written by it in one of them:
+	// monitor mode held on by a stressed peer (stayOnUntil, levels, reason) and always mode (stressed)
+	for _, mode := range []string{"monitor", "always"} {
+		mode := mode
+		groups = append(groups, group{
+			Name: "stress-relief-" + mode,
+			Setup: func() any {
+				cfg := &config.MockConfig{StressRelief: config.StressReliefConfig{Mode: mode, ActivationLevel: 80, DeactivationLevel: 50, SamplingRate: 10, MinimumActivationDuration: config.Duration(time.Second)}}
+				m := metrics.NewMultiMetrics()
+				m.Store("INCOMING_CAP", 100)
+				s := &collect.StressRelief{RefineryMetrics: m, Config: cfg, Logger: &logger.NullLogger{}, Health: nopHealth{}, PubSub: stubPubSub{},
+					Peer: peer.NewMockPeers([]string{"me"}, "me"), Clock: clockwork.NewFakeClockAt(time.Unix(1700000000, 0)), Done: make(chan struct{})}
+				if err := s.Start(); err != nil {
+					panic(err)
+				}
+				s.UpdateFromConfig()
+				collect.VerifC35OnStressLevelUpdate(s, "peer1", 90)
+				s.Recalc()
+				if mode == "monitor" {
+					// the next Recalc sees a calmer cluster: relief switches state (writes `stressed`)
+					collect.VerifC35OnStressLevelUpdate(s, "peer1", 10)
+					s.Clock.(*clockwork.FakeClock).Advance(2 * time.Second)
+				}
+				return &stressEnv{s}
+			},
+			Done: func(e any) { close(e.(*stressEnv).s.Done) },
+			Acts: []activity{
+				{"monitor.Recalc", "stress-monitor", func(e any) { e.(*stressEnv).s.Recalc() }},
+				{"pubsub.onStressLevelUpdate", "*", func(e any) { collect.VerifC35OnStressLevelUpdate(e.(*stressEnv).s, "peer2", 70) }},
+				{"router.Stressed+GetSampleRate", "*", func(e any) {
+					s := e.(*stressEnv).s
+					s.Stressed()
+					s.GetSampleRate("abc")
+				}},
+				{"collector-monitor.UpdateFromConfig", "collector-monitor", func(e any) { e.(*stressEnv).s.UpdateFromConfig() }},
+			},
+		})
+	}
 	groups = append(groups, group{
 		Name: "sampler-factory",
 		Setup: func() any {
